@@ -520,6 +520,12 @@ class Dispatch:
             return v.smt(), "(_ BitVec %d)" % v.w
         if isinstance(v, B):
             return v.smt(), "Bool"
+        from .mirsym.engine import FnItem
+        if isinstance(v, FnItem):
+            # a closure / fn item handed to a callee: an opaque value identified by its source span
+            name = "|fn!%s|" % re.sub(r"[^\w:.@-]", "_", v.text)[:80]
+            self.solver.declare(name, "V")
+            return name, "V"
         if isinstance(v, Adt):
             parts = [self.term(ex, st, f) for f in v.fields]
             name = "|mk.%s.%s|" % (v.ty, v.vname if v.vname is not None else (v.variant if v.variant is not None else ""))
@@ -613,6 +619,8 @@ def run_dispatch(ctx, prop, which):
     bad_methods = []
     seen_methods = set()
     for h in heads:
+        if "::{closure#" in ctx.mir.lines[h]:
+            continue  # closure bodies are not trait methods; they only run when a wrapper calls them
         fn = ctx.mir.function_at(h)
         name = fn.name.split(">::")[-1]
         seen_methods.add(name)
@@ -1512,13 +1520,14 @@ def c11_l9(ctx, prop):
 # ------------------------------------------------------------------------------------------------
 # C19 (text half): StringExt::{size, to_bool, trim_suffix} on symbolic text
 # ------------------------------------------------------------------------------------------------
+def _find_stringext(mir, callee, m):
+    recv, name = m.group(1), m.group(2)
+    col = "23" if recv == "str" else "26"
+    return mir.get(r"^fn core::string::<impl at src/core/string\.rs:\d+:1: \d+:%s>::%s\(" % (col, re.escape(name)))
+
+
 TEXT_INLINE = [
-    (rx(r"^<String as (?:core::string::)?StringExt>::to_bool$"),
-     lambda mir, c, m: mir.get(r"^fn core::string::<impl at src/core/string\.rs:\d+:1: \d+:26>::to_bool\(_1: &String\)")),
-    (rx(r"^<String as (?:core::string::)?StringExt>::size$"),
-     lambda mir, c, m: mir.get(r"^fn core::string::<impl at src/core/string\.rs:\d+:1: \d+:26>::size\(_1: &String\)")),
-    (rx(r"^<str as (?:core::string::)?StringExt>::size$"),
-     lambda mir, c, m: mir.get(r"^fn core::string::<impl at src/core/string\.rs:\d+:1: \d+:23>::size\(_1: &str\)")),
+    (rx(r"^<(str|String) as (?:core::string::)?StringExt>::(\w+)(?:::<.*>)?$"), _find_stringext),
 ]
 
 
